@@ -18,7 +18,10 @@ RULE = ('strings: all strings up to a length bound over the number/boolean alpha
         'the real Loader instance and by the Lean model (compared), checked against an independent '
         'Python rendering of the YAML 1.2 rules, constructed with the real constructor, and, when '
         'it scans as one plain scalar, loaded end to end.  Non-trivial = the string resolves to a '
-        'non-str tag on either side or is within one edit of such a string.')
+        'non-str tag on either side or is within one edit of such a string.'
+        'Also: Node.get_value() agrees with the constructed value for every string that resolves'
+        ' to bool / float; boolean- and float-looking scalars at positions where one Union member'
+        ' has an enum and another a bool / Any, judged by the reference pipeline.')
 ASSUMPTIONS = [
     'CPython re.match on the admitted regex constructs matches iff the modelled language says so',
     'PyYAML BaseResolver.resolve looks up the bucket of value[0] (or "") and then the wildcard bucket',
